@@ -140,8 +140,15 @@ func (s *kState) MarkNextRoundViewUpdated() {
 	// Unconditionally update the gossip strategy output.
 	s.GossipViewManager.NextRound.VRV = s.NextRound.Clone()
 
-	// No state machine updates for next round.
-	// The state machine should not be able to be past the mirror state.
+	// The state machine is normally not past the mirror's voting round,
+	// but it may have entered this round on its own
+	// (a precommit delay timeout takes it there before the mirror has seen enough of the round's votes),
+	// and its round entrance was answered with this view.
+	// In that case it has to be told when the view changes, like for the voting view.
+	if s.StateMachineViewManager.H() == s.NextRound.Height &&
+		s.StateMachineViewManager.R() == s.NextRound.Round {
+		s.StateMachineViewManager.SetView(s.NextRound)
+	}
 }
 
 func (s *kState) MarkViewUpdated(id ViewID) {
